@@ -534,12 +534,21 @@ def run_type_assignment(
                     'runner_up_probability': runner_up_probability}
 
     # Backfill all cells/levels with avg_correlation == None
-    # using the parent's avg_correlation value.
+    # using the parent's avg_correlation value. Levels at the top
+    # of the taxonomy that have a single node have no parent to
+    # inherit from; they take the value of the nearest level below
+    # them at which a choice was actually made.
+    reversed_hierarchy = hierarchy[::-1]
     for cell in result:
-        for parent_level, child_level in zip(level_list[:-1], level_list[1:]):
+        for parent_level, child_level in zip(hierarchy[:-1], hierarchy[1:]):
             if cell[child_level]['avg_correlation'] is None:
                 cell[child_level]['avg_correlation'] = \
                     cell[parent_level]['avg_correlation']
+        for child_level, parent_level in zip(reversed_hierarchy[:-1],
+                                             reversed_hierarchy[1:]):
+            if cell[parent_level]['avg_correlation'] is None:
+                cell[parent_level]['avg_correlation'] = \
+                    cell[child_level]['avg_correlation']
 
     # add aggregate_probability (the product of bootstrapping_probability)
     # across levels in the taxonomy
